@@ -31,9 +31,11 @@ VARIABLES edges,      \* Src -> SUBSET Src
           stack,      \* frames [obj, rest] (rest = children not yet visited)
           memo,       \* Src -> BOOLEAN: an id of the new document is known for this source object
           copies,     \* Src -> how many objects of the new document were created for it
-          copied      \* Categories copied into the new page's resources
+          copied,     \* Categories copied into the new page's resources
+          inspected   \* the used resources of the source page were read (stream data decoded) through the source document,
+                      \* which is opened with caches, before the import
 
-vars == <<edges, roots, resobj, used, phase, todo, stack, memo, copies, copied>>
+vars == <<edges, roots, resobj, used, phase, todo, stack, memo, copies, copied, inspected>>
 
 RECURSIVE SetSeq(_)
 SetSeq(S) == IF S = {} THEN <<>> ELSE LET m == CHOOSE x \in S : \A y \in S : x <= y IN <<m>> \o SetSeq(S \ {m})
@@ -47,6 +49,7 @@ Choose ==
   /\ LET pruned == {c \in used' : ~("unpruned:" \o c \in Dev)}      \* categories deep_clone_op knows about
      IN /\ copied' = pruned
         /\ todo' = SetSeq(roots' \cup {resobj'[c] : c \in pruned \cap {"font"}})
+  /\ inspected' \in BOOLEAN
   /\ phase' = "clone"
   /\ UNCHANGED <<stack, memo, copies>>
 
@@ -77,12 +80,12 @@ Step ==
                   ELSE /\ stack' = Append(popped, [obj |-> child, rest |-> SetSeq(edges[child])])
                        /\ memo' = IF "memo_after_recursion" \in Dev THEN memo ELSE [memo EXCEPT ![child] = TRUE]
                        /\ UNCHANGED <<copies, todo, phase>>
-  /\ UNCHANGED <<edges, roots, resobj, used, copied>>
+  /\ UNCHANGED <<edges, roots, resobj, used, copied, inspected>>
 
 Init ==
   /\ edges = [o \in Src |-> {}] /\ roots = {} /\ resobj = [c \in Categories |-> 0] /\ used = {}
   /\ phase = "choose" /\ todo = <<>> /\ stack = <<>>
-  /\ memo = [o \in Src |-> FALSE] /\ copies = [o \in Src |-> 0] /\ copied = {}
+  /\ memo = [o \in Src |-> FALSE] /\ copies = [o \in Src |-> 0] /\ copied = {} /\ inspected = FALSE
 
 Next == Choose \/ Step
 Spec == Init /\ [][Next]_vars
@@ -101,5 +104,9 @@ Closure == phase = "done" => \A o \in Src : copies[o] > 0 => \A c \in edges[o] :
 \* for every resource name the operations use there is a resource in the copy (with all it refers to)
 UsedResourcesCopied == phase = "done" => (used \subseteq copied /\ \A o \in Needed : copies[o] = 1)
 
+\* the bytes of a copied stream are the source's stored bytes (they go with the source's /Filter entry): build.rs / stream.rs
+\* deep clone reads them from the backend, not from the stream cache, which may hold the decoded form after an inspection
+StreamBytes == IF "clone_reads_stream_cache" \in Dev /\ inspected /\ "xobject" \in used THEN "decoded" ELSE "stored"
+ContentEqual == phase = "done" => StreamBytes = "stored"
 Bounded == Len(stack) <= N + 1       \* state constraint for the witness runs
 =============================================================================
